@@ -207,10 +207,11 @@ static void op_path_open(const Op& op) {
         return;
     }
     if (fired) { if (r != 33) V("errno", "path_open:injected-EMFILE-not-reported", "returned " + std::to_string(r)); return; }
-    if (op.fault == "strndup_fail" && g_callcount.count("strndup") && g_callcount["strndup"] >= op.fault_nth) {
+    if ((op.fault == "strndup_fail" && g_callcount.count("strndup") && g_callcount["strndup"] >= op.fault_nth) ||
+        (op.fault == "realloc_fail" && g_callcount.count("realloc") && g_callcount["realloc"] >= op.fault_nth)) {
         // the descriptor could not be registered: the call has to fail and must not leave a usable table entry behind (later sweeps
         // over never-issued numbers check that); no descriptor number was handed out
-        if (r == 0) V("errno", "path_open:failed-registration-reported-as-success", "the path copy could not be allocated but path_open returned success");
+        if (r == 0) V("errno", "path_open:failed-registration-reported-as-success", "the path copy / the table slot could not be allocated but path_open returned success");
         // the host open itself happened (it may have created or truncated the file): same effect on the mirror
         { int m2 = __real_open(mres.c_str(), native, 0644); if (m2 >= 0) __real_close(m2); }
         return;
